@@ -157,6 +157,13 @@ func genC09(r *Rng, tier string) []*Case {
 				mm.M.Minor = n + 1 // not square
 			case 1:
 				mm.V.Dim = n + 1 // wrong vector dimension
+			case 3: // a vector shorter than the matrix (its entries all fit): still a dimension mismatch
+				if n >= 2 {
+					d := 1 + r.Intn(n-1)
+					mm.V = Vec{Dim: d, Ents: sortedSpan(r, d, r.Pick(30, 70, 100), 0, val)}
+				} else {
+					mm.V = Vec{Dim: 0}
+				}
 			case 2: // a cancelling row -> zero product must be dropped
 				if n >= 2 {
 					mm.M.Rows[0] = []Ent{{I: 0, V: 1}, {I: 1, V: -1}}
